@@ -106,16 +106,19 @@ Theorem C10_header_reads_back : forall bs meta h,
 Proof. exact spec_header_of_prefix. Qed.
 Print Assumptions C10_header_reads_back.
 
-(* ---- what the checker wf_file means (the v1 layout, clause by clause) *)
+(* ---- what the checker wf_file means (the v1 layout, clause by clause).
+   The allocation limit is "the byte offset of the end of counter records": every
+   record's own bytes end at or before it; the format does not ask for a multiple
+   of 32 there (that is a fact about the WRITER, C10_writer_limit_rounded) *)
 Theorem C10_wf_file_meaning : forall bs, wf_file bs = true ->
   exists hdr meta kv limit rs,
     spec_header bs = Some (hdr, meta) /\ meta_kv meta = Some kv /\ spec_records bs = Some rs /\
     has_prefix bs c_hdrPrefix = true /\ get32 bs 28 = hdr /\ hdr mod 32 = 0 /\ (32 <= hdr /\ hdr <= 16384) /\
     meta = cut_nul (slice bs 32 (hdr - 32)) /\
     len bs mod 16384 = 0 /\ 16384 <= len bs /\
-    limit = get32 bs hdr /\ limit <= len bs /\ limit mod 32 = 0 /\ (limit = 0 \/ hdr + 2052 <= limit) /\
+    limit = get32 bs hdr /\ limit <= len bs /\ (limit = 0 \/ hdr + 2052 <= limit) /\
     (forall r, In r rs ->
-       r_off r mod 32 = 0 /\ hdr + 4 + 4 * 512 <= r_off r /\ r_end r <= limit /\
+       r_off r mod 32 = 0 /\ hdr + 4 + 4 * 512 <= r_off r /\ r_off r + 16 + len (r_name r) <= limit /\
        1 <= len (r_name r) <= 4096 /\
        r_off r mod 16384 + rec_size (len (r_name r)) <= 16384 - 32 /\
        r_name r = slice bs (r_off r + 16) (len (r_name r)) /\ r_val r = get64 bs (r_off r) /\
@@ -137,6 +140,16 @@ Theorem C10_writer_wf : forall meta s0 ops, meta_ok meta -> create [] meta = Som
   forall n, wf_file (w_bs (snd (run_ops s0 (firstn n ops)))) = true.
 Proof. exact writer_wf. Qed.
 Print Assumptions C10_writer_wf.
+
+(* ... and, for the files the library writes (not for every v1 file): the limit is
+   a multiple of 32 and every record's whole 32-byte-unit block lies below it *)
+Theorem C10_writer_limit_rounded : forall meta s0 ops, meta_ok meta -> create [] meta = Some s0 ->
+  all_small s0 ops ->
+  forall n, let bs := w_bs (snd (run_ops s0 (firstn n ops))) in
+    limit_of bs mod 32 = 0 /\
+    forall rs r, spec_records bs = Some rs -> In r rs -> r_end r <= limit_of bs.
+Proof. exact writer_limit_rounded. Qed.
+Print Assumptions C10_writer_limit_rounded.
 
 (* the invariant behind it, preserved by every single operation, together with:
    the allocation limit only grows, the file only grows *)
